@@ -156,7 +156,9 @@ class SimTransport(transports.Transport):
             return
         snap = bytes(data)
         self.out.sent += snap
-        self.out.pending.append((data, snap))
+        # zero-copy views: of the caller's object (retained, as the real transport does)
+        # and of the snapshot taken now (the reference)
+        self.out.pending.append((memoryview(data).cast("B"), memoryview(snap)))
         self.out.pending_bytes += len(snap)
         self.net.pump(self.out)
         self._maybe_pause()
@@ -272,13 +274,12 @@ class SimNet:
                 obj, snap = pipe.pending[0]
                 if len(snap) <= need:
                     pipe.pending.popleft()
-                    parts.append((obj, snap, 0, len(snap)))
+                    parts.append((obj, snap))
                     need -= len(snap)
                 else:
-                    # split a retained object: keep the remainder as a memoryview of the SAME object
-                    parts.append((obj, snap, 0, need))
-                    rest_obj = memoryview(obj)[need:]
-                    pipe.pending[0] = (rest_obj, snap[need:])
+                    # split a retained object: both halves stay views of the SAME object
+                    parts.append((obj[:need], snap[:need]))
+                    pipe.pending[0] = (obj[need:], snap[need:])
                     need = 0
             pipe.pending_bytes -= n
             pipe.inflight += n
@@ -304,9 +305,9 @@ class SimNet:
         if pipe.dead:
             return
         chunk = bytearray()
-        for obj, snap, a, b in parts:
-            now_bytes = bytes(memoryview(obj)[a:b]) if not isinstance(obj, bytes) else obj[a:b]
-            if now_bytes != snap[a:b]:
+        for obj, snap in parts:
+            now_bytes = bytes(obj)  # what the retained object holds NOW
+            if now_bytes != snap:
                 pipe.mutated_before_delivery += 1
                 self.stats["retained_buffer_mutated"] += 1
             chunk += now_bytes
